@@ -710,28 +710,31 @@ func checkC19Keys(c *Ctx, p *Prog) {
 	}
 	n, plain := 0, false
 	detail := ""
-	eachInstr(fn, func(in ssa.Instruction) {
+	// (in onKeyEvent or in the helper it translates the key name with: a parameter stands for the
+	// argument passed)
+	for _, d := range deepInstrs(p, fn, 1, nil) {
+		in := d.in
 		lk, ok := in.(*ssa.Lookup)
 		if !ok {
-			return
+			continue
 		}
 		ld, ok := lk.X.(*ssa.UnOp)
 		if !ok {
-			return
+			continue
 		}
 		g, ok := ld.X.(*ssa.Global)
 		if !ok || g.Name() != "WebKeyNames" {
-			return
+			continue
 		}
 		n++
 		// the plain name: the string taken from the callback's argument, unmodified
-		call, ok := lk.Index.(*ssa.Call)
+		call, ok := d.bindVal(lk.Index).(*ssa.Call)
 		if !ok || !strings.HasSuffix(calleeName(&call.Call), "js.Value).String") {
 			detail += "lookup under " + valName(lk.Index) + "; "
-			return
+			continue
 		}
 		modDep := false
-		for _, a := range guardsAt(in.Block()) {
+		for _, a := range d.atoms() {
 			if strings.Contains(a.L, "mod") && (a.Op == "==" || a.Op == "!=") {
 				modDep = true
 			}
@@ -739,7 +742,7 @@ func checkC19Keys(c *Ctx, p *Prog) {
 		if !modDep {
 			plain = true
 		}
-	})
+	}
 	c.Check(plain, "C19-R7", "onKeyEvent:plain-name-lookup", p.pos(fn.Pos()), fmt.Sprintf("%d lookups in WebKeyNames, one of them under the unmodified key name and independent of the modifiers: %v %s", n, plain, detail))
 }
 
